@@ -1,0 +1,58 @@
+//go:build verif
+
+// Contracts for govc (see /verif/DESIGN.md). Comment-only: no executable code with or without the tag.
+
+package assets
+
+//@ import os "os"
+//@ import path "path"
+//@ import proto "google.golang.org/protobuf/proto"
+//@ import pb "github.com/refraction-networking/conjure/proto"
+
+//@ func getRandInt(min int, max int) int
+//@   assigns nothing
+
+//@ func getRandString(length int) string
+//@   requires length >= 0
+//@   ensures len(result) == length
+//@   assigns nothing
+//@ loop 1:
+//@   invariant len(randString) == length && fresh(randString)
+//@   modifies elems(randString)
+
+// C20: the ClientConf file is replaced atomically. T is the path of the stored ClientConf.
+// Step invariant (after every call, i.e. at every point where the process can die between two calls):
+// the file holds the previous content or the complete new one. Inside os.WriteFile only the temporary file
+// changes (its name provably differs from T); inside os.Rename the target flips atomically (assumed).
+//@ func (a *assets) saveClientConf() error
+//@   requires a != nil
+//@   let T := pathJoin(a.path, a.filenameClientConf)
+//@   atcall WriteFile before: assert @C20: tmpFilename != filename && filename == old(T)
+//@   atcall * after: assert @C20: fs(old(T)) == old(fs(T)) || fs(old(T)) == marshaledMsg(box(old(a.config)))
+//@   ensures @C20: result == nil ==> fs(old(T)) == marshaledMsg(box(old(a.config)))
+//@   ensures @C20: result != nil ==> fs(old(T)) == old(fs(T))
+//@   assigns fs
+
+//@ func (a *assets) SetClientConf(conf *pb.ClientConf) (err error)
+//@   requires a != nil && !held(&a.RWMutex) && rheld(&a.RWMutex) == 0
+//@   let T := pathJoin(a.path, a.filenameClientConf)
+//@   ensures @C20: err != nil ==> a.config == old(a.config) && fs(old(T)) == old(fs(T))
+//@   ensures @C20: err == nil ==> a.config == conf && fs(old(T)) == marshaledMsg(box(conf))
+//@   ensures @C20: !held(&a.RWMutex) && rheld(&a.RWMutex) == 0
+//@   assigns a.config, fs, held(&a.RWMutex), acq(&a.RWMutex)
+
+//@ func (a *assets) SetGeneration(gen uint32) (err error)
+//@   requires a != nil && !held(&a.RWMutex) && rheld(&a.RWMutex) == 0
+//@   ensures @C20: !held(&a.RWMutex) && rheld(&a.RWMutex) == 0
+
+//@ func (a *assets) SetPubkey(pubkey *pb.PubKey) (err error)
+//@   requires a != nil && !held(&a.RWMutex) && rheld(&a.RWMutex) == 0
+//@   ensures @C20: !held(&a.RWMutex) && rheld(&a.RWMutex) == 0
+
+//@ func (a *assets) SetDecoys(decoys []*pb.TLSDecoySpec) (err error)
+//@   requires a != nil && !held(&a.RWMutex) && rheld(&a.RWMutex) == 0
+//@   ensures @C20: !held(&a.RWMutex) && rheld(&a.RWMutex) == 0
+
+//@ func (a *assets) SetPhantomSubnets(subnetConf *pb.PhantomSubnetsList) error
+//@   requires a != nil && !held(&a.RWMutex) && rheld(&a.RWMutex) == 0
+//@   ensures @C20: !held(&a.RWMutex) && rheld(&a.RWMutex) == 0
